@@ -94,7 +94,7 @@ func ZZ_C01_NoProxyBeforeAuth() {
 		h := hs[k]
 		other := hs[1-k]
 		zzCurrent = h
-		wasAuth, otherAuth := h.authenticated, other.authenticated
+		wasAuth, otherAuth := zzAccepted[h], zzAccepted[other]
 		callsBefore := auth.calls
 		switch verifChoice("event", 4) {
 		case 0: // authentication request
@@ -103,16 +103,15 @@ func ZZ_C01_NoProxyBeforeAuth() {
 			if wasAuth {
 				verifCover("repeated-auth")
 				verifAssert(auth.calls == callsBefore, "a repeated attempt is not re-evaluated")
-				verifAssert(w.status == 233 && h.authenticated, "and neither revokes access nor is refused")
+				verifAssert(w.status == 233, "and neither revokes access nor is refused")
 			} else {
 				verifAssert(auth.calls == callsBefore+1, "credentials are evaluated once")
-				verifAssert(h.authenticated == zzAccepted[h], "the connection is authenticated exactly when its credentials were accepted")
+				verifAssert((w.status == 233) == zzAccepted[h], "the request is answered 233 exactly when its credentials were accepted")
 			}
 		case 1: // ordinary HTTP/3 request
 			w := &zzRW{}
 			h.ServeHTTP(w, zzAuthRequest("GET", "example.com", "/", "", "", false))
 			verifAssert(w.untouched(), "non-auth requests are left to the masquerade handler")
-			verifAssert(h.authenticated == wasAuth, "and do not change the authentication state")
 		case 2: // raw stream opening with frame type 0x401
 			st := &quic.Stream{}
 			zzStream(st).in = append([]byte(nil), zzTCPStream...)
@@ -129,17 +128,104 @@ func ZZ_C01_NoProxyBeforeAuth() {
 			zzConn(conns[k]).inDgrams = append(zzConn(conns[k]).inDgrams, append([]byte(nil), zzUDPMsg...))
 		}
 		verifQuiesce()
-		verifAssert(other.authenticated == otherAuth, "an event on one connection never changes the other's authentication")
-		verifAssert(!h.authenticated || zzAccepted[h], "authenticated implies accepted by the authenticator on this very connection")
-		verifAssert(h.udpSM == nil || zzAccepted[h], "the UDP session manager exists only after acceptance")
+		verifAssert(zzAccepted[other] == otherAuth, "an event on one connection never changes the other's authentication")
 		verifAssert(len(zzConn(conns[k]).outDgrams) == 0 || zzAccepted[h], "no datagram is sent to an unauthenticated peer")
 	}
+	// what each connection is allowed in the end is probed through its behaviour
 	n := 0
 	for i := range hs {
-		if hs[i].authenticated {
+		zzCurrent = hs[i]
+		st := &quic.Stream{}
+		zzStream(st).in = append([]byte(nil), zzTCPStream...)
+		hijacked, _ := hs[i].ProxyStreamHijacker(http3.FrameType(0x401), st, nil)
+		verifAssert(hijacked == zzAccepted[hs[i]], "in the end a connection proxies exactly when the authenticator accepted it")
+		verifQuiesce()
+		if zzAccepted[hs[i]] {
 			n++
 		}
 	}
 	verifAssert(online.on == n, "one online notification per accepted connection")
 	verifCover("done")
+}
+
+// an authenticator that takes its time: it blocks until the harness releases
+// it and accepts exactly the credential "good"
+type zzSlowAuth struct {
+	gate     chan struct{}
+	inflight int
+	calls    int
+}
+
+func (a *zzSlowAuth) Authenticate(addr net.Addr, auth string, tx uint64) (bool, string) {
+	a.calls++
+	a.inflight++
+	<-a.gate
+	a.inflight--
+	ok := auth == "good"
+	if ok {
+		zzAccepted[zzCurrent] = true
+	}
+	return ok, "user1"
+}
+
+// While an authentication request is still being evaluated (the authenticator
+// has not answered yet) the connection is not authenticated: a proxy stream,
+// a datagram or a second auth request arriving in that window opens nothing
+// and is not answered 233; what happens afterwards depends only on what the
+// authenticator accepted. Credentials of both requests good or bad.
+//
+//verif:harness kind=api replay=interp unwind=200 preempt=1 bound=2-requests,1-stream,1-datagram,one-preemption
+func ZZ_C01_AuthInFlight() {
+	auth := &zzSlowAuth{gate: make(chan struct{})}
+	ob := &zzGateOutbound{}
+	online := &zzOnline{}
+	cfg := &Config{Authenticator: auth, Outbound: ob, TrafficLogger: online, EventLogger: &zzEvents{}}
+	conn := &quic.Conn{}
+	h := newH3sHandler(cfg, conn)
+	zzCurrent = h
+	creds := []string{"good", "bad"}
+	c1 := creds[verifChoice("firstCredential", 2)]
+	w1 := &zzRW{}
+	go h.ServeHTTP(w1, zzAuthRequest("POST", "hysteria", "/auth", c1, "0", true))
+	verifQuiesce()
+	verifAssert(auth.inflight == 1, "the first request is being evaluated")
+	// the window
+	var w2 *zzRW
+	var st *quic.Stream
+	c2 := ""
+	if verifBool("secondRequestInWindow") {
+		c2 = creds[verifChoice("secondCredential", 2)]
+		w2 = &zzRW{}
+		go h.ServeHTTP(w2, zzAuthRequest("POST", "hysteria", "/auth", c2, "0", true))
+		verifQuiesce()
+		verifAssert(w2.status != 233, "a request arriving while authentication is pending is not answered 233")
+		verifCover("second-request-in-window")
+	}
+	if verifBool("streamInWindow") {
+		st = &quic.Stream{}
+		zzStream(st).in = append([]byte(nil), zzTCPStream...)
+		hijacked, _ := h.ProxyStreamHijacker(http3.FrameType(0x401), st, nil)
+		verifQuiesce()
+		verifAssert(!hijacked, "a proxy stream arriving while authentication is pending is declined")
+		verifAssert(zzStream(st).ops == 0 && ob.tcp == 0, "and neither read, answered nor dialled")
+		verifCover("stream-in-window")
+	}
+	if verifBool("datagramInWindow") {
+		zzConn(conn).inDgrams = append(zzConn(conn).inDgrams, append([]byte(nil), zzUDPMsg...))
+		verifQuiesce()
+		verifAssert(ob.udp == 0 && ob.check == 0, "a datagram arriving while authentication is pending opens nothing")
+	}
+	verifAssert(w1.status != 233 && !zzAccepted[h], "nothing was accepted yet")
+	close(auth.gate)
+	verifQuiesce()
+	verifAssert((w1.status == 233) == (c1 == "good"), "the first request is answered 233 exactly when its credentials are good")
+	if w2 != nil {
+		verifAssert((w2.status == 233) == (c1 == "good" || c2 == "good"), "the second exactly when either was accepted")
+	}
+	verifAssert(zzAccepted[h] == (c1 == "good" || c2 == "good"), "the authenticator accepted exactly the good credentials")
+	if st != nil {
+		verifAssert(zzStream(st).ops == 0, "the declined stream stays untouched")
+	}
+	verifAssert(len(zzConn(conn).outDgrams) == 0 || zzAccepted[h], "no datagram is sent to an unauthenticated peer")
+	verifCover("released")
 }
